@@ -54,7 +54,10 @@ THEOREMS = [
         "applyUf_rows frfRec_with_uf solvePsd_with_uf preEig_solves "
         # Props/C02i: incrb / rf_disp_only at the level of the whole column
         "rfVals_options rfVals_length rbAcc_length rbVals_options elValsCoup_length elValsSU_rows "
-        "colSU_options colFD_options"
+        "colSU_options colFD_options "
+        # third phase: damped rigid-body modes of uncoupled systems (findings F51 / F52, repaired code)
+        "rbDamp_den frfRb_damped_solves frfRb_damped_reduces frfRbD_zero_freq frfRb_zero_freq_unsolvable "
+        "rbDamp_den_ne_zero_real rbDampRows_correct damped_rb_instances rbAccD_length"
     ).split()
 ]
 TRUSTED = [
@@ -228,6 +231,14 @@ def gen_unc(rs, cplx, mkind, boundary=False):
             b[i] = 0.0
         elif c == "rf":
             k[i] = rs.uniform(1e5, 1e7)
+    rb_damped = False
+    if nrb and rs.random() < 0.6:
+        # uncoupled equations: a rigid-body mode is found from k alone and may carry damping, m q'' + b q' = F
+        # (findings F51 / F52); with two rigid-body modes sometimes only one of them is damped
+        rb_damped = True
+        for t, i in enumerate(_idx(cls, "rb")):
+            if t == 0 or rs.random() < 0.6:
+                b[i] = rs.uniform(0.05, 3.0) * m[i]
     rbmode = "auto" if rs.random() < 0.5 else "explicit"
     if boundary and nrb:
         # both sides of the 0.005 detection threshold (only meaningful for automatic detection)
@@ -266,6 +277,7 @@ def gen_unc(rs, cplx, mkind, boundary=False):
     return {
         "m": mm, "b": bb, "k": kk, "rb": rb, "rf": rfv, "pre_eig": False,
         "cls": cls, "unc": True, "cplx": cplx, "mkind": mkind, "boundary": bool(boundary and nrb),
+        "rb_damped": rb_damped,
     }
 
 
@@ -349,7 +361,11 @@ def gen_pre(rs, cplx, mkind):
         return A
 
     K = chain(ks)
-    prop = rs.random() < 0.35
+    # damping: a damper chain (coupled after pre_eig), stiffness-proportional, mass-proportional or general Rayleigh
+    # (the last three are diagonal after pre_eig: the uncoupled path; on a free-free model the rigid-body mode then
+    # carries the damping alpha -- how F51 surfaced through frclim.calcAM)
+    dstyle = str(rs.choice(["chain", "kprop", "mprop", "rayleigh"], p=[0.3, 0.15, 0.3, 0.25]))
+    alpha = float(rs.uniform(0.05, 1.5))
     if mkind == "none":
         mm, M = None, np.eye(n)
     elif mkind == "vector":
@@ -358,13 +374,15 @@ def gen_pre(rs, cplx, mkind):
     else:
         M = _sym_with_eigs(rs, rs.uniform(0.5, 4.0, n))
         mm = M
-    B = 2e-4 * K if prop else chain(cs)
+    B = {"chain": chain(cs), "kprop": 2e-4 * K, "mprop": alpha * M, "rayleigh": alpha * M + 2e-4 * K}[dstyle]
     if cplx:
         B = B * (1 + 0.1j)
+    if dstyle == "mprop" and mkind != "matrix" and rs.random() < 0.4:
+        B = np.diag(B).copy()  # a damping vector: `(u.T * b) @ u` in `_do_pre_eig`
     rf = [n - 1] if rs.random() < 0.3 else None
     return {
         "m": mm, "b": B, "k": K, "rb": None, "rf": rf, "pre_eig": True,
-        "cls": None, "unc": None, "cplx": cplx, "mkind": mkind, "boundary": False, "free": free,
+        "cls": None, "unc": None, "cplx": cplx, "mkind": mkind, "boundary": False, "free": free, "dstyle": dstyle,
     }
 
 
@@ -396,6 +414,7 @@ def spec_of(sysd, solver, incrb, rfd, freq, F):
         "incrb": incrb, "rfd": bool(rfd), "freq": [float(x) for x in freq], "F": _enc(F),
         "corpus": bool(sysd.get("corpus", False)),
         "variant": sysd.get("variant"),
+        "free": bool(sysd.get("free", False)), "dstyle": sysd.get("dstyle"), "fixed": sysd.get("fixed"),
     }
 
 
@@ -442,6 +461,32 @@ def _variant_system(sysd, variant):
             return None
         return s
     return s
+
+
+def _rb_damping(spec):
+    """(rigid-body rows, their damping block) of a modal-layout spec; (None, None) without rigid-body modes"""
+    cls = spec.get("cls") or []
+    rb = _idx(cls, "rb")
+    if not rb:
+        return None, None
+    n = len(cls)
+    B = _full(_dec(spec["b"]), n)
+    return rb, B
+
+
+def _rb_damped(spec):
+    """an uncoupled system in modal layout whose rigid-body modes (found from k alone) carry damping"""
+    rb, B = _rb_damping(spec)
+    return bool(rb and spec.get("unc") and not spec.get("boundary") and np.any(B[rb, rb] != 0))
+
+
+def _coupled_rb_damped(spec):
+    """a coupled system with a (necessarily user-given) rigid-body mode whose row or column of b is not zero:
+    outside the property (the detection rule defines a rigid-body mode of a coupled system by zero k and b);
+    SolveUnc solves it as a = M^-1 F without that damping, FreqDirect keeps it — tied by the correspondence
+    check, not judged by the oracle"""
+    rb, B = _rb_damping(spec)
+    return bool(rb and spec.get("unc") is False and (np.any(B[rb, :] != 0) or np.any(B[:, rb] != 0)))
 
 
 def _mk_solver(spec):
@@ -641,8 +686,21 @@ def _systems(ctx, rs):
             t = _variant_system(sysd, v)
             if t is not None:
                 extra.append(t)
-    out = _corpus() + out + extra
+    out = _corpus() + _systems_coupled_user_rb() + out + extra
     return out
+
+
+def _systems_coupled_user_rb():
+    """sibling (c) of F51: a *coupled* system whose rigid-body mode is given by the user although it carries damping.
+    The source solves it as a = M^-1 F (no damping; the rigid-body detection rule of coupled systems requires zero
+    damping) — the model does the same (`ColEnv.rbDamping` is zero on the coupled path); only tied, nothing claimed."""
+    M = np.diag([1.0, 2.0, 3.0])
+    K = np.array([[0.0, 0.0, 0.0], [0.0, 300.0, -50.0], [0.0, -50.0, 500.0]])
+    B = np.array([[0.7, 0.0, 0.0], [0.0, 0.5, 0.1], [0.0, 0.1, 0.8]])
+    base = {"rf": None, "pre_eig": False, "cls": ["rb", "el", "el"], "unc": False, "boundary": False,
+            "fixed": "coupled-user-rb-damped"}
+    return [dict(base, m=M, b=B, k=K, rb=[0], cplx=False, mkind="matrix"),
+            dict(base, m=None, b=B, k=K * (1 + 0.02j), rb=[0], cplx=True, mkind="none")]
 
 
 def _option_grid(rs, full):
@@ -745,6 +803,16 @@ def correspondence(ctx):
             ctx.count("corpus-cases")
         if 0.0 in spec["freq"]:
             ctx.count("freq:0Hz")
+        if spec["solver"] == "su" and _rb_damped(spec):
+            ctx.count("rb-damped:" + ("complex" if spec["cplx"] else "real"))
+            if 0.0 in spec["freq"]:
+                ctx.count("rb-damped:0Hz")
+        if spec.get("fixed"):
+            ctx.count(spec["fixed"])
+        if (spec["pre_eig"] and spec.get("free") and spec.get("dstyle") in ("mprop", "rayleigh") and ts is not None
+                and getattr(ts, "unc", False) and getattr(ts, "rbsize", 0)):
+            # free-free model, mass-proportional / Rayleigh damping: uncoupled after pre_eig, damped rigid-body mode
+            ctx.count("pre-eig:mass-proportional")
         if isinstance(sol, tuple):  # exception
             kind = _exc_kind(sol[1])
             ctx.count("error:" + kind)
@@ -811,7 +879,8 @@ def correspondence(ctx):
          "stream:state", "state:eig-path", "state:real-uncoupled", "state:rf-below-rb", "state:rb-unsorted-user",
          "state:rf-unsorted-user", "stream:shapes", "force:1d", "freq:scalar", "freq:repeated",
          "variant:f32", "variant:int", "variant:c64F", "psd:uf", "stream:gauss-spec", "gauss:singular-refused",
-         "gauss:pivoted"]
+         "gauss:pivoted", "rb-damped:real", "rb-damped:complex", "rb-damped:0Hz", "pre-eig:mass-proportional",
+         "coupled-user-rb-damped", "psd:rb-damped", "state:rb-damping-rows:real", "state:rb-damping-rows:complex"]
         + ["incrb:" + "".join(sorted(s)) for s in INCRB_SUBSETS]
     )
 
@@ -899,6 +968,20 @@ def _state_stream(ctx, drv, state_jobs):
                 rt = 1e-5 if spec.get("variant") == "f32" else 1e-12
                 if np.shape(got) != np.shape(want) or abs(got - want).max(initial=0.0) > rt * max(1.0, abs(want).max(initial=0.0)):
                     num_bad = "self.%s is not the decomposition of the mass rows %s" % (nm, r_)
+            # the damping `_solve_freq_rb` uses for the rigid-body modes of an uncoupled system: `b[_rb]` (real
+            # coefficients) / `brb` kept by `get_su_eig` before the reduction (complex coefficients)
+            if impl["unc"] and model["rb"] and impl["nonrf"]:
+                dr = lst(f[14]) if len(f) > 14 else None
+                got = getattr(ts, "brb", None) if eig_path else (ts.b[ts._rb] if np.ndim(ts.b) == 1 else None)
+                ctx.count("state:rb-damping-rows:" + ("complex" if eig_path else "real"))
+                if dr is None or got is None:
+                    num_bad = "the rigid-body damping (%s) is not available: model rows %s" % (
+                        "self.brb" if eig_path else "self.b[self._rb]", dr)
+                else:
+                    want = np.diag(B)[dr]
+                    got = np.atleast_1d(got)
+                    if np.shape(got) != np.shape(want) or abs(got - want).max(initial=0.0) > tol * max(1.0, abs(want).max(initial=0.0)):
+                        num_bad = "the rigid-body damping %s is not the rows %s of b" % (np.asarray(got).tolist(), dr)
         if impl != model:
             ctx.disagree("state", spec, impl, model)
         elif num_bad:
@@ -997,11 +1080,14 @@ def _run_psd(spec, ts=None):
 
 
 def _psd_stream(ctx, rs, drv, systems, worst):
-    cands = [s for s in systems if not s["boundary"]]
+    cands = [s for s in systems if not s["boundary"] and not s.get("fixed")]
+    damped = [s for s in cands if s.get("rb_damped") or (s["pre_eig"] and s.get("free") and s.get("dstyle") in ("mprop", "rayleigh"))]
     npsd = ctx.pick(80, 600)
     jobs = []
     for j in range(npsd):
-        sysd = cands[int(rs.integers(0, len(cands)))]
+        # every 8th case on a system with a damped rigid-body mode (uncoupled, or free-free + pre_eig)
+        pool = damped if (damped and j % 8 == 0) else cands
+        sysd = pool[int(rs.integers(0, len(pool)))]
         solver = "su" if (sysd["pre_eig"] or rs.random() < 0.6) else "fd"
         spec = _psd_case(rs, sysd, solver)
         ts, res = _run_psd(spec)
@@ -1021,6 +1107,9 @@ def _psd_stream(ctx, rs, drv, systems, worst):
         ctx.case(("psd", line), nontrivial=True, branch="stream:psd")
         if spec.get("rbduf", 1.0) != 1.0 or spec.get("elduf", 1.0) != 1.0:
             ctx.count("psd:uf")
+        if spec["solver"] == "su" and (_rb_damped(spec) or (spec["pre_eig"] and spec.get("free")
+                                                             and spec.get("dstyle") in ("mprop", "rayleigh"))):
+            ctx.count("psd:rb-damped")
         if rep == "bad-op":
             raise Infra("driver C02 rejected a psd request")
         if einfo is not None and (not einfo["ok"] or einfo["cond"] > 1e6
@@ -1094,6 +1183,8 @@ def _gauss_stream(ctx, rs, drv, worst):
 OBSERVATIONS = {}
 FAM_A = "fsolve-su-rb-index-array-ge2-incrb-dv"
 FAM_B = "su-imrb-rf-index-before-rb-mass-given"
+FAM_D_REAL = "fsolve-unc-damped-rigid-body-mode-damping-ignored"          # F51
+FAM_D_CPLX = "fsolve-unc-complex-coefficients-damped-rigid-body-mode"     # F52
 
 
 def _contig(ix):
@@ -1197,6 +1288,12 @@ def _oracle_fsolve(spec, other=None):
         return out
     cls = spec["cls"]
     rb, el, rf = _idx(cls, "rb"), _idx(cls, "el"), _idx(cls, "rf")
+    damped_rb = _rb_damped(spec)
+    fam_damped = FAM_D_CPLX if spec["cplx"] else FAM_D_REAL
+    skip_rb = _coupled_rb_damped(spec)
+    if skip_rb:
+        OBSERVATIONS["coupled-system-user-rb-with-damping-not-judged"] = OBSERVATIONS.get(
+            "coupled-system-user-rb-with-damping-not-judged", 0) + 1
     for j, f in enumerate(freq):
         W = 2 * np.pi * f
         col = lambda x: x[:, j]  # noqa: E731
@@ -1225,9 +1322,16 @@ def _oracle_fsolve(spec, other=None):
                 if _rel(v[rf, j] - 1j * W * d[rf, j], v[rf, j], W * d[rf, j]) > ORACLE_TOL or \
                         _rel(a[rf, j] + W * W * d[rf, j], a[rf, j], W * W * d[rf, j]) > ORACLE_TOL:
                     fail(_fam(spec, "v-a-rf"), "v != iW d or a != -W^2 d on rf rows", None, "v = iWd, a = -W^2 d")
-        # rigid-body rows (k = b = 0 by construction unless the threshold stream)
-        if rb and not spec["boundary"]:
-            arb = np.linalg.solve(M[np.ix_(rb, rb)], F[rb, j])
+        # rigid-body rows: k = 0 by construction (unless the threshold stream); for an uncoupled system they may carry
+        # damping (m q'' + b q' = F: the rows are found from k alone), for a coupled system b = 0 on them as well.
+        # At exactly 0 Hz the equation of a rigid-body row, 0 * d = F, has no solution: the documented convention
+        # a = M^-1 F, v = d = 0 is what is required there (with or without damping) instead of the residual rule.
+        if rb and not spec["boundary"] and not skip_rb:
+            Mrb, Brb = M[np.ix_(rb, rb)], B[np.ix_(rb, rb)]
+            if W != 0 and damped_rb:
+                arb = -W * W * np.linalg.solve(-W * W * Mrb + 1j * W * Brb, F[rb, j])
+            else:
+                arb = np.linalg.solve(Mrb, F[rb, j])
             want = {
                 "a": arb if "a" in inc else 0 * arb,
                 "v": arb / (1j * W) if ("v" in inc and W != 0) else 0 * arb,
@@ -1242,10 +1346,12 @@ def _oracle_fsolve(spec, other=None):
                              "rigid-body %s row not exactly zero although excluded by incrb=%r (or W = 0)" % (nm, inc),
                              got.tolist(), "exact zeros")
                 elif _rel(got - w, w) > ORACLE_TOL:
-                    fail(FAM_B if fam_b else _fam(spec, "rb-%s" % nm),
-                         "rigid-body %s row is not the solution of -W^2 m d = F" % nm, got.tolist(), w.tolist())
+                    fail(FAM_B if fam_b else fam_damped if (damped_rb and W != 0) else _fam(spec, "rb-%s" % nm),
+                         "rigid-body %s row is not the solution of (-W^2 m + iW b) d = F%s" % (
+                             nm, " (damped rigid-body mode of an uncoupled system)" if damped_rb else ""),
+                         got.tolist(), w.tolist())
     # the two solvers agree
-    if other is not None and not spec["boundary"]:
+    if other is not None and not spec["boundary"] and not skip_rb:
         o_ts, o_sol = _run_impl(other)
         if isinstance(o_sol, tuple):
             fail(_family_exc(other, o_ts is None), "fsolve raises %s on a valid system: %s" % (o_sol[1], o_sol[2]),
@@ -1258,9 +1364,15 @@ def _oracle_fsolve(spec, other=None):
                 if nonrf and np.linalg.cond(-W * W * M[np.ix_(nonrf, nonrf)] + 1j * W * B[np.ix_(nonrf, nonrf)] + K[np.ix_(nonrf, nonrf)]) > 1e8:
                     cond_ok = False
             if cond_ok:
+                nrb = [i for i in range(n) if i not in rb]
                 for nm, x, y in (("d", d, o_sol.d), ("v", v, o_sol.v), ("a", a, o_sol.a)):
                     if _rel(x - y, x, y) > 10 * ORACLE_TOL:
-                        fail(FAM_B if (fam_b or _in_family_b(other)) else _fam(spec, "differs-from-other-solver-%s" % nm), "SolveUnc.fsolve and FreqDirect.fsolve disagree on %s" % nm,
+                        # a disagreement confined to the damped rigid-body rows of an uncoupled system is F51 / F52
+                        only_rb = damped_rb and _rel(x[nrb] - y[nrb], x, y) <= 10 * ORACLE_TOL
+                        fail(FAM_B if (fam_b or _in_family_b(other)) else fam_damped if only_rb
+                             else _fam(spec, "differs-from-other-solver-%s" % nm),
+                             "SolveUnc.fsolve and FreqDirect.fsolve disagree on %s%s" % (
+                                 nm, " (rows of the damped rigid-body modes only)" if only_rb else ""),
                              _enc(x), _enc(y))
     return out
 
